@@ -51,7 +51,8 @@ func NewValidatedKIDBackendWrapper(backend Storage, kidPattern *regexp.Regexp) S
 }
 
 func (w wrapper) validateKID(kid string) error {
-	if !w.kidPattern.MatchString(kid) {
+	if !w.kidPattern.MatchString(kid) || kid == "." || kid == ".." {
+		// "." and ".." are path elements for backends that derive a path from the key ID
 		return fmt.Errorf("invalid key ID: %s", kid)
 	}
 	return nil
